@@ -116,7 +116,7 @@ pub fn coverage_issues(sp: &ScaledPoints, n_verts: usize, cells: &[Vec<usize>], 
         // count containing cells, skipping samples on a facet hyperplane
         let mut containing = 0usize;
         for c in cells {
-            let Some(signs) = sp.barycentric_signs(c, q) else { continue };
+            let Some(signs) = sp.barycentric_signs(c, q) else { continue 'sample };
             if signs.iter().any(|&x| x == 0) {
                 continue 'sample;
             }
@@ -175,4 +175,79 @@ pub fn count_subsets(n: usize, k: usize) -> usize {
         true
     });
     c
+}
+
+/// Root-cause class of a non-Delaunay result, from its *locally* non-Delaunay facets (pairs of
+/// facet-adjacent cells A, B with B's apex decidably strictly inside A's circumsphere), used as a
+/// discriminating fact for known findings:
+///  * "d4_suppressed"        D >= 4: every such pair is of the form the library declares an
+///                            "impossible both-positive artefact" and skips
+///  * "degenerate_flip"      D <= 3 and for every such pair the k=2 flip would create a cell whose
+///                            orientation is not decidably non-zero (the verifier skips those)
+///  * "unexplained_local"    at least one locally non-Delaunay facet with a clean flip
+///  * "local_in_band"        decidable global violations, but every locally non-Delaunay facet has
+///                            its in-sphere determinant inside the tolerance band
+///  * "no_local_violation"   decidable global violations but no locally non-Delaunay facet at all
+pub fn classify_violations(pts: &[Vec<f64>], sp: &ScaledPoints, cells: &[Vec<usize>], rep: &DelaunayReport) -> &'static str {
+    use crate::exact::band::{analyze, orientation_matrix, Decision};
+    let d = sp.dim;
+    if !rep.has_decidable() {
+        return "none";
+    }
+    let mut facets: BTreeMap<Vec<usize>, Vec<usize>> = BTreeMap::new();
+    for (ci, c) in cells.iter().enumerate() {
+        for i in 0..c.len() {
+            let mut f: Vec<usize> = c.iter().enumerate().filter(|(j, _)| *j != i).map(|(_, &k)| k).collect();
+            f.sort_unstable();
+            facets.entry(f).or_default().push(ci);
+        }
+    }
+    let mut local = 0usize;
+    let mut local_in_band = 0usize;
+    let mut unexplained = 0usize;
+    for (f, inc) in &facets {
+        if inc.len() != 2 {
+            continue;
+        }
+        let (a, b) = (&cells[inc[0]], &cells[inc[1]]);
+        let apex_a = *a.iter().find(|x| !f.contains(x)).unwrap();
+        let apex_b = *b.iter().find(|x| !f.contains(x)).unwrap();
+        let exact_viol = sp.insphere(a, apex_b) == Some(1) || sp.insphere(b, apex_a) == Some(1);
+        if !exact_viol {
+            continue;
+        }
+        let viol = (sp.insphere(a, apex_b) == Some(1) && pair_decidable(pts, a, apex_b)) || (sp.insphere(b, apex_a) == Some(1) && pair_decidable(pts, b, apex_a));
+        if !viol {
+            local_in_band += 1;
+            continue;
+        }
+        local += 1;
+        if d >= 4 {
+            continue;
+        }
+        let mut degenerate = false;
+        for skip in 0..f.len() {
+            let mut cell: Vec<usize> = f.iter().enumerate().filter(|(i, _)| *i != skip).map(|(_, &x)| x).collect();
+            cell.push(apex_a);
+            cell.push(apex_b);
+            let m = orientation_matrix(&cell.iter().map(|&i| pts[i].clone()).collect::<Vec<_>>());
+            if !matches!(analyze(&m, 1e-15).decision, Decision::Sign(_)) {
+                degenerate = true;
+            }
+        }
+        if !degenerate {
+            unexplained += 1;
+        }
+    }
+    if local == 0 && local_in_band > 0 {
+        "local_in_band"
+    } else if local == 0 {
+        "no_local_violation"
+    } else if unexplained > 0 {
+        "unexplained_local"
+    } else if d >= 4 {
+        "d4_suppressed"
+    } else {
+        "degenerate_flip"
+    }
 }
